@@ -2,7 +2,8 @@
 (* Case generator for C14: lines on a 7x7 lattice against a catalogue of valid polygons, filtered (by TLC) to
    simple lines in general position relative to the polygon. *)
 EXTENDS Clip, Json
-CONSTANTS N, M2, M3, M4     \* lattice 0..N; thinning of 2-, 3-, 4-vertex lines
+CONSTANTS N, M2, M3, M4,    \* lattice 0..N; thinning of 2-, 3-, 4-vertex lines
+          MM               \* thinning of the pairs of lines that make multi-line strings
 VARIABLE c
 Grid == {<<x, y>> : x \in 0..N, y \in 0..N}
 RECURSIVE HashL(_, _)
@@ -29,8 +30,12 @@ RingsOf(P) == LET RECURSIVE Cat(_)
 Single == {[kind |-> "clip", lines |-> <<l>>, ml |-> FALSE, poly |-> P] : l \in Lines, P \in Polys}
 (* a multi-line string is simple only if its members are: here the two members share no point at all *)
 Apart(a, b) == \A i \in 1..(Len(a) - 1), j \in 1..(Len(b) - 1) : ~SegsMeet(a[i], a[i + 1], b[j], b[j + 1])
-Multi == {[kind |-> "clip", lines |-> <<p[1], p[2]>>, ml |-> TRUE, poly |-> P] :
-             p \in {q \in L2 \X L3 : (HashL(q[1], 1) + 3 * HashL(q[2], 1)) % 97 = 0 /\ Apart(q[1], q[2])}, P \in Polys}
+PairHash(q) == (HashL(q[1], 1) * 31 + 7 * HashL(q[2], 1)) % 1009
+MPairs == TLCEval({q \in L2 \X (L2 \cup L3) : PairHash(q) % MM = 0 /\ Apart(q[1], q[2])})
+MTriples == TLCEval({<<q[1], q[2], l>> : q \in {x \in MPairs : PairHash(x) % (3 * MM) = 0}, l \in {y \in L2 : HashL(y, 1) % 5 = 0}})
+Multi == {[kind |-> "clip", lines |-> <<p[1], p[2]>>, ml |-> TRUE, poly |-> P] : p \in MPairs, P \in Polys}
+         \cup {[kind |-> "clip", lines |-> t, ml |-> TRUE, poly |-> P] :          \* three members: more members than most polygons have rings
+                  t \in {x \in MTriples : Apart(x[1], x[3]) /\ Apart(x[2], x[3])}, P \in Polys}
 (* lines all of whose vertices are inside P while P is not convex / has a hole / has two members: the line may leave P
    between its vertices (every 2-vertex line of the lattice, and 3-vertex lines thinned by M3 / 8) *)
 Tricky == { [t |-> "Polygon", polys |-> << <<Concave>> >>], [t |-> "Polygon", polys |-> << <<Quad, Hole>> >>],
